@@ -373,6 +373,9 @@ def local_defs(fn: ast.AST, into_nested: bool = False) -> Dict[str, List[Def]]:
         elif isinstance(n, (ast.Import, ast.ImportFrom)):
             for al in n.names:
                 add(al.asname or al.name.split(".")[0], Def("import", None, None, n))
+    for ds in defs.values():  # source order (walk order is arbitrary)
+        ds.sort(key=lambda d: (getattr(d.stmt, "lineno", 0), getattr(d.stmt, "col_offset", 0))
+                if d.kind != "param" else (-1, 0))
     return defs
 
 
